@@ -20,7 +20,7 @@ MANIFEST = dict(
     technique="TLA+ spec Options (writer-side validation vs reader-side limits as predicates over the option grid, as-built and repaired variants) evaluated by TLC; every grid point exported by TLC is executed on the real writers and readers and compared with the predicted outcome class",
     text="Options.tla states what every reader accepts (lc<=8, lp<=4, pb<=4, lc+lp<=4 and props<=224 for LZMA2, delta 1..256, BCJ alignment, dictionary limits, no preset dictionary in containers) and what every writer validates, as predicates over the boundary grid of all public option fields (lc 0..9 x lp 0..5, pb, 12 dictionary classes up to u32::MAX, nice_len {0,1,2,3,4,7,8,273,274,1000} x match finder x mode, depth extremes, preset dictionary classes, XZ filter properties, chunk/block/member sizes, worker counts, .lzma expected size). TLC checks WriterAccepts => ReaderDecodes \\/ WriterErrors on the repaired variant and exports every as-built grid point with its predicted class; each point is executed on the real code with five inputs (panics contained, possible aborts isolated in child processes) and must end in Err or in a stream the corresponding reader decodes to the written bytes.",
     ref="4.11, 6/C19",
-    note="Boundary slices around one base point per writer, not the full product of all fields; inputs <= 300 KiB (quick) / 4 MiB (thorough). Dictionaries >= 768 MiB are executed with lazily committed memory and tiny inputs only. Decoding uses the crate's own corresponding reader with the writer's parameters.",
+    note="Boundary slices around one base point per writer, not the full product of all fields; inputs <= 300 KiB (quick) / 4 MiB (thorough). Dictionaries >= 768 MiB really commit several GiB; they are executed one at a time under a 6 GiB address-space limit with a 3000-byte input (limit hit = no verdict), and the quick tier executes only the 768 MiB boundary on two writers plus the classes refused before allocation. Decoding uses the crate's own corresponding reader with the writer's parameters.",
     ready=True,
 )
 
@@ -146,8 +146,23 @@ def concretise(p, idx, variant):
     return {"target": target, "opts": o, "data": {"gen": gen, "len": n, "seed": 11 + idx, "arch": "x86"}}
 
 
+BIG_DICT = ("768M", "768M+1", "1.5G", "2G", "4G-16", "4G-1")
+
+
 def isolated(p):
-    return p["dict"] in ("768M", "768M+1", "1.5G", "2G", "4G-16", "4G-1") or p["sz"] == "huge"
+    return p["dict"] in BIG_DICT or p["sz"] == "huge"
+
+
+def affordable(p, quick):
+    """Dictionaries >= 768 MiB commit several GiB (the aligned match-finder tables are really zero-filled): the quick
+    tier executes the classes that are refused before anything is allocated, plus the 768 MiB boundary on two writers."""
+    if p["dict"] not in BIG_DICT:
+        return True
+    if p["dict"] in ("2G", "4G-16", "4G-1"):
+        return True
+    if quick:
+        return p["dict"] in ("768M", "768M+1") and p["w"] in ("lzma2", "xz")
+    return True
 
 
 def run(tier, replay=None):
@@ -177,11 +192,15 @@ def run(tier, replay=None):
     small = [("text", 3000), ("zeros", 5000), ("random", 2000), ("text", 0)]
     large = ("text", 300000 if quick else 4 << 20)
     cases, iso_cases = [], []
+    skipped_resource = 0
     for i, x in enumerate(pts):
         p = x["point"]
         variants = list(small)
+        if not affordable(p, quick):
+            skipped_resource += 1
+            continue
         if isolated(p):
-            variants = [("text", 3000), ("zeros", 5000)]
+            variants = [("text", 3000)]
         elif (not quick) or p["slice"] in ("props", "preset", "filter", "size", "base") or (i % 4 == 0):
             variants.append(large)
         for v in variants:
@@ -193,11 +212,16 @@ def run(tier, replay=None):
             (iso_cases if isolated(p) else cases).append(c)
     strip = lambda c: {k: v for k, v in c.items() if k != "pi"}
     res = dlib.run_cases("vh_opt", [strip(c) for c in cases], timeout=3000, per_batch=40)
-    ires = dlib.run_cases_isolated("vh_opt", [strip(c) for c in iso_cases], timeout=1200, nproc=6)
+    # strictly sequential, 6 GiB address-space cap, 120 s each: a grid point must never exhaust the machine
+    ires = dlib.run_cases_isolated("vh_opt", [strip(c) for c in iso_cases], nproc=1, timeout=120, as_limit=6 << 30)
     per_point = collections.defaultdict(list)
+    n_resource = 0
     for c, r in list(zip(cases, res)) + list(zip(iso_cases, ires)):
         if r.get("tool_error"):
             raise ToolError(f"vh_opt: {r['tool_error']} for {c}")
+        if "resource" in r:
+            n_resource += 1
+            continue
         if "abort" in r:
             err = r.get("stderr", "")
             r = {"class": "Abort", "detail": f"process died (rc={r['abort']}): {err.strip().splitlines()[-1] if err.strip() else ''}"}
@@ -238,6 +262,8 @@ def run(tier, replay=None):
         raise ToolError(f"Options.tla mispredicts {len(mismatches)} of {len(pts)} grid points: the model does not describe this tree "
                         f"(first: {mismatches[0]})")
     ctx.cov["grid_points"] = len(pts)
+    ctx.cov["points_not_executed_resource"] = skipped_resource
+    ctx.cov["executions_without_verdict_resource"] = n_resource
     ctx.cov["predicted_outside_contract"] = len(pred_bad)
     ctx.cov["evaluations"] = len(cases) + len(iso_cases)
     ctx.cov["distinct_nontrivial"] = len(classes)
@@ -248,7 +274,9 @@ def run(tier, replay=None):
         ctx.sample(strip(c))
     ctx.assumptions += ["boundary slices around one base point per writer (not the full product of the option fields)",
                         "decoding with the crate's own corresponding reader, told the writer's parameters where the format carries none",
-                        "dictionaries >= 768 MiB executed with lazily committed memory and inputs <= 5000 bytes"]
+                        "dictionaries >= 768 MiB commit several GiB (aligned tables are really zero-filled): executed one at a time under a "
+                        "6 GiB address-space limit with a 3000-byte input; hitting the limit is 'no verdict'; quick executes only the "
+                        "768 MiB boundary on two writers and the classes refused before allocation"]
     ctx.finish()
 
 
@@ -259,6 +287,8 @@ def run_replay(ctx, path):
     r = dlib.run_cases_isolated("vh_opt", [c])[0]
     print(json.dumps(r, indent=1))
     obs = "Abort" if "abort" in r else r.get("class")
+    if "resource" in r:
+        raise ToolError("replay hit the resource limit: " + r["resource"])
     if obs in ("Panic", "OkUndecodable", "Abort"):
         ctx.violation(f"{rep['sig']['family']} writer, {rep['sig']['value']}: {obs} - {r.get('detail', r.get('stderr', ''))[:160]}", rep["sig"], rep["replay"])
     ctx.cov["evaluations"] = 1
